@@ -10,8 +10,11 @@
 
   Node   := {name, kind: struct|boxed|object|iface|union|enum|flags|callback|other,
              members:[Member...], values:[int...]}
-  Member := {m:"field", name, cb:bool, ty:Ty} | {m:"callback", name} | {m:"other"}
+  Member := {m:"field", name, cb:bool, ty:Ty} | {m:"cbfield", name} (a <callback> inside the <field>:
+             Model.inlineCallbackField decides by the container) | {m:"callback", name} | {m:"other"}
   Ty     := {k:"basic", tag, ptr} | {k:"array", ptr, has_size, size, elem:Ty} | {k:"iface", name, ptr}
+          | {k:"fieldarray", has_size, size, has_length, ctype_ptr, elem:Ty} (a C array typed field as
+             start_type sees it: Model.fieldArrayTy decides is_pointer)
 -/
 import Driver.Util
 import GIVerif.Model.Offsets
@@ -28,11 +31,15 @@ partial def tyOf (j : Json) : Except String Ty := do
     let e ← tyOf (← j.getObjVal? "elem")
     pure (.array (← boolOf j "ptr") (← boolOf j "has_size") (← intOf j "size") e)
   | "iface" => pure (.iface (← strOf j "name") (← boolOf j "ptr"))
+  | "fieldarray" =>
+    let e ← tyOf (← j.getObjVal? "elem")
+    pure (fieldArrayTy (← boolOf j "has_size") (← intOf j "size") (← boolOf j "has_length") (← boolOf j "ctype_ptr") e)
   | _ => throw s!"bad type kind {k}"
 
-def memberOf (j : Json) : Except String Member := do
+def memberOf (parent : NodeKind) (j : Json) : Except String Member := do
   let m ← (← j.getObjVal? "m").getStr?
   match m with
+  | "cbfield" => pure (inlineCallbackField parent (← strOf j "name"))
   | "field" => pure (.field (← strOf j "name") (← boolOf j "cb") (← tyOf (← j.getObjVal? "ty")))
   | "callback" => pure (.callback (← strOf j "name"))
   | _ => pure .other
@@ -48,7 +55,7 @@ def nodeOf (j : Json) : Except String Node := do
   let name ← strOf j "name"
   let kind ← kindOf (← (← j.getObjVal? "kind").getStr?)
   let members ← match j.getObjVal? "members" with
-    | .ok a => (← a.getArr?).toList.mapM memberOf
+    | .ok a => (← a.getArr?).toList.mapM (memberOf kind)
     | .error _ => pure []
   let values ← match j.getObjVal? "values" with
     | .ok a => (← a.getArr?).toList.mapM (fun v => v.getInt?)
